@@ -45,16 +45,26 @@ Definition classify (lab : bytes) : option glabel :=
 Section Fragment.
 Variable cf : sconf.
 
-(* a request line the simulated server answers by echoing it: no LF, valid UTF-8, not one of the
-   words with a meaning for the session or the server's command table *)
+(* what the simulated server writes for one request line outside idle and outside a list *)
+Definition srv_out (l : bytes) : bytes :=
+  match exec_cmd cf 0 l with inl body => body ++ ok_line | inr ack => ack end.
+
+(* ... and how the client must decode it *)
+Definition reply_of_line (l : bytes) : response :=
+  match bparse_all Initial (srv_out l) with (_, _, Complete r) => r | _ => mkResp [] None end.
+
+(* the abstract (Grammar.v) response with that decoding: fields, then the binary part *)
+Definition aresp_of (r : response) : aresp :=
+  mkAResp FSingle (map (fun f => mkAFrame (f_fields f) (f_binary f) (length (f_fields f))) (r_frames r)) (r_error r) None.
+
+(* a request line of the fragment: one line, none of the words with a meaning for the session, and
+   the server's answer is the encoding of ONE well-formed response (an echo, an ACK, a binary
+   reply, a picture chunk ... whatever the simulated server's command table says) *)
 Definition echo_line (l : bytes) : bool :=
-  wf_text l &&
+  no_lf l &&
   negb (beq l idle_word) && negb (beq l noidle_word) &&
   negb (beq l (removelast command_list_begin)) &&
-  match exec_cmd cf 0 l with
-  | inl body => beq body (field_line (b "line") l)
-  | inr _ => false
-  end.
+  (wf_resp (aresp_of (reply_of_line l)) && beq (srv_out l) (enc (aresp_of (reply_of_line l)))).
 
 Definition good (g : glabel) : bool :=
   match g with
@@ -63,9 +73,8 @@ Definition good (g : glabel) : bool :=
   | _ => true
   end.
 
-(* the reply of the simulated server to an echo request, as the client must decode it *)
-Definition echo_reply (u : bytes) : response :=
-  mkResp [mkFrame [(b "line", removelast u)] None] None.
+(* the reply of the simulated server to a request (its bytes as written: line + LF) *)
+Definition echo_reply (u : bytes) : response := reply_of_line (removelast u).
 
 (* ---------- the structured run of the executable system ---------- *)
 
@@ -103,13 +112,13 @@ Definition write_ok (u : bytes) : Prop := u = idle_line \/ u = noidle_line \/ re
 Definition enc_s (r : sresp) : bytes :=
   match r with
   | SIdle ns => changed_lines ns ++ ok_line
-  | SReply u => field_line (b "line") (removelast u) ++ ok_line
+  | SReply u => srv_out (removelast u)
   end.
 
 Definition wf_s (r : sresp) : Prop :=
   match r with
   | SIdle ns => Forall (fun n => wf_text n = true) ns
-  | SReply u => wf_text (removelast u) = true
+  | SReply u => echo_line (removelast u) = true
   end.
 
 (* the builder state [st] and buffer [buf] are what is left after the bytes [done] were consumed *)
